@@ -29,7 +29,25 @@ def gen_case(ctx, i):
     if i % 40 == 7:  # a large batch: 500-2000 local peaks refined in one call (counts that are not multiples of a block size)
         kind = "many"
         maps = r.random((int(r.integers(6, 11)), int(r.integers(6, 11)), int(r.integers(10, 15)), int(r.integers(10, 15))))
+        if (i // 40) % 20 == 1:  # few large noise maps: more than 4096 peaks in one call spread over several samples and channels
+            maps = r.random([(2, 3, 96, 96), (3, 2, 80, 112), (1, 4, 128, 96)][int(r.integers(0, 3))])
         thr = float(r.choice([0.0, 0.2, 0.5]))
+    if i % 400 == 13:  # a map with more than 512*512 cells carrying plateaus and ties (large inputs may take another code path)
+        kind = "huge"
+        shp = [(1, 1, 520, 520), (1, 1, 450, 640), (1, 1, 1, 300000), (1, 2, 524, 516)][int(r.integers(0, 4))]
+        maps = np.zeros(shp)
+        Hh, Ww = shp[-2:]
+        for c_ in range(shp[1]):
+            for _ in range(150):  # isolated cells, tied neighbour pairs and small plateaus, sparse enough to keep the number of peaks small
+                y_, x_ = int(r.integers(0, Hh)), int(r.integers(0, Ww))
+                v_ = float(r.choice([0.5, 0.75, 1.0]))
+                maps[0, c_, y_, x_] = v_
+                if r.random() < 0.5 and x_ + 1 < Ww:
+                    maps[0, c_, y_, x_ + 1] = v_
+                if r.random() < 0.2 and y_ + 1 < Hh:
+                    maps[0, c_, y_ + 1, x_] = v_
+            maps[0, c_, -1, : min(Ww, 40)] = 0.6  # a constant strip on the border
+        thr = float(r.choice([0.0, 0.2]))
     f64 = bool(r.random() < 0.15)
     if f64:  # float64 maps whose neighbouring cells differ by less than float32 resolution (near-ties that only float64 arithmetic orders)
         maps = maps.astype(np.float64) + r.integers(0, 7, maps.shape) * 1e-10  # non-negative: same-sign patches stay same-sign
@@ -92,6 +110,10 @@ def check(ctx, case):
     ctx.count("oracle_peaks", len(oracle))
     if len(oracle) > 512:
         ctx.count("calls_with_more_than_512_peaks")
+    if len(oracle) > 4096:
+        ctx.count("calls_with_more_than_4096_peaks")
+    if H * W > 512 * 512:
+        ctx.count("maps_larger_than_512x512")
     if any(float(int(y)) != y or float(int(x)) != x for s, c, y, x, v in got):
         ctx.violation("non-integral-rough", "rough peaks are not grid cells", small)
     elif len(set(got_cells)) != len(got_cells):
